@@ -160,8 +160,8 @@ def check(ctx):
         def ob(self, rule, key, ok, site="", detail="", nontrivial=True, undecided=False):
             if rule == "R02.2" and "available_elements_count" in key: return super().ob(rule, key, ok, site, detail, nontrivial, undecided)
             return ok
-    C02.check(OnlyLen(ctx, "R20.8"))
-    ctx.floor("R20.8", 2)
+    util.guarded(ctx, C02.check, OnlyLen(ctx, "R20.8"))
+    if not getattr(ctx, "deferred_infra", None): ctx.floor("R20.8", 2)
 
 
 def _r20_6(ctx):
